@@ -420,6 +420,40 @@ def c09_3b(ck, prog):
         r.violation('do_expiration:first->next', fn.name, fn.file, fn.line, 'walk is not first->next')
 
 
+def c09_3c(ck, prog):
+    r = ck.rule('C09.3c', 'the expiry timer stays armed while a slot with a finite timeout is still waiting: a walk '
+                'that kept such a slot returns a non-negative interval (the "something left to expire" flag is set '
+                'for every kept slot, however far away its deadline is)', 'TS',
+                breaks='with a reply timeout above one hour the timer is switched off although slots are pending: '
+                       'no NoReply is ever sent and a reply arriving after the timeout is still admitted', floor=1)
+    fn = prog.fn('do_expiration_with_monotonic_time', 'bus/expirelist.c')
+    kept_sites = [0]
+
+    def on_event(user, ev, ctx):
+        for lhs, how, rhs in written_lvalues(ev):
+            # "time left for this slot" = expire_after - elapsed: computed only for a slot that is kept
+            if how in ('=', 'decl') and isinstance(rhs, dict) and rhs.get('k') == 'bin' and rhs['op'] == '-' and \
+                    any(is_member(x, 'expire_after', 'BusExpireList') for x in walk(rhs['l'])):
+                kept_sites[0] += 1
+                return True
+        return user
+
+    def on_exit(user, ctx, ret, ev):
+        if not user or ret is None:
+            return
+        v = ctx.const_of(ret)
+        if v is not None and v < 0:
+            ctx.report('the walk kept a slot with a finite timeout but returns %d: the expiry timer is switched off'
+                       % v, ev['line'], key='disarmed')
+    ex = Explorer(fn, init=False, on_event=on_event, on_exit=on_exit, track='auto', cap=400000).run()
+    if not kept_sites[0]:
+        raise AnalysisBroken('do_expiration: the time-left computation was not found')
+    if ex.reports:
+        r.from_reports(ex.reports, keyfn=lambda k, rep: 'do_expiration:%s' % k)
+    else:
+        r.ok('do_expiration:kept-slot-keeps-timer-armed')
+
+
 def c09_4(ck, prog):
     r = ck.rule('C09.4', 'no half-open slot: after the slot was added, every failure exit of expect_reply '
                 'removes it again', 'PAIR', breaks='OOM leaves a slot without an undo hook', floor=1)
@@ -467,4 +501,18 @@ def run(ck):
         c09_2(ck, prog)
         c09_3(ck, prog)
         c09_3b(ck, prog)
+        c09_3c(ck, prog)
+        # "is this a reply?" is decided from REPLY_SERIAL, which the loader guarantees for returns and errors
+        from rules.C01 import c01_4
+        r5 = ck.rule('C09.5', 'method returns and errors without REPLY_SERIAL never reach the bus: the loader\'s '
+                     'mandatory-field table is the specification\'s (shared with C01.4); the reply gate and both '
+                     'policy evaluators classify replies by that field', 'TAB',
+                     breaks='an error carrying no reply serial bypasses the pending-reply check and is delivered to '
+                            'a connection that never called the sender', floor=25)
+        save = ck.rule
+        ck.rule = lambda *a, **k: r5
+        try:
+            c01_4(ck, prog)
+        finally:
+            ck.rule = save
         c09_4(ck, prog)
